@@ -671,6 +671,26 @@ def cutoff_knife_edge(case, tol=1e-9):
     return False
 
 
+def parallel_tie(case):
+    """non-emitting states on, and some observation segment (two consecutive fixes) is EXACTLY parallel to a road: the planar
+    segment-to-segment routine then has several equally near point pairs to choose from, and which one it returns is decided by
+    the last bits of the computed distances (finding F23)"""
+    if not case['cfg'].get('non_emitting_states'):
+        return False
+    g, tr = case['graph'], case['trace']
+    for p, q in zip(tr, tr[1:]):
+        dx, dy = q[0] - p[0], q[1] - p[1]
+        if dx == 0 and dy == 0:
+            continue
+        for a, (pa, nb) in g.items():
+            for b in nb:
+                if b in g and b != a:
+                    ex, ey = g[b][0][0] - pa[0], g[b][0][1] - pa[1]
+                    if (ex or ey) and dx * ey - dy * ex == 0:
+                        return True
+    return False
+
+
 def start_tie(case):
     """two start candidates (edges, or nodes in node mode) at exactly the same distance from the first observation"""
     g = case['graph']
@@ -727,6 +747,8 @@ def case_C16(seed):
             differs = False
         if differs:
             key = f'C16:{kind}-changes-result'
+            if kind in ('translate', 'scale') and a['idx'] == b['idx'] and same_path and parallel_tie(case):
+                key = 'C16:probability-depends-on-rounding-for-a-fix-segment-parallel-to-a-road'
             if kind == 'relabel' and not (a['idx'] == b['idx'] and close(a['best'], b['best'], tol, tol)) and \
                     case['cfg'].get('non_emitting_states') and case['cfg'].get('max_lattice_width') and start_tie(case):
                 # label order decides among start candidates tied in distance (F9c); with non-emitting states AND a width the
@@ -757,13 +779,14 @@ def case_C16(seed):
             for nm, T in maps:
                 k_ = 8.0 if nm.startswith('scale') else 1.0
                 got = de.distance_segment_to_segment(T(f1), T(f2), T(t1), T(t2))
-                if nm.startswith('translate'):
-                    # a translation is not exact in floats: among several equally near pairs (overlapping parallel segments) another
-                    # one may be returned; required: the same distance, realised by the returned points, positions in range
-                    ok = close(got[0], base[0], 1e-9, 1e-9) and close(math.hypot(got[1][0] - got[2][0], got[1][1] - got[2][1]), got[0], 1e-9, 1e-9) \
+                if not nm.startswith('swap'):
+                    # translation and (observed: last-bit differences in the projected points) scaling are not bit-exact: among several
+                    # equally near pairs (overlapping parallel segments) another one may be returned; required: the same distance,
+                    # realised by the returned points, positions in range
+                    ok = close(got[0], base[0] * k_, 1e-9, 1e-9) and close(math.hypot(got[1][0] - got[2][0], got[1][1] - got[2][1]), got[0], 1e-9, 1e-9) \
                         and 0 <= got[3] <= 1 and 0 <= got[4] <= 1
                 else:
-                    # axis swap and scaling by a power of two are exact: the very same pair must come back
+                    # the axis swap is exact (sums and products commute): the very same pair must come back
                     ok = close(got[0], base[0] * k_, 1e-12, 1e-12) and all(close(a_, b_, 1e-12, 1e-12) for a_, b_ in zip(got[1], T(base[1]))) \
                         and all(close(a_, b_, 1e-12, 1e-12) for a_, b_ in zip(got[2], T(base[2]))) and close(got[3], base[3], 1e-12, 1e-12) \
                         and close(got[4], base[4], 1e-12, 1e-12)
